@@ -57,8 +57,8 @@ theorem rl_sci (m : ℕ) (s : Bool) (e : ℕ) :
     @OfScientific.ofScientific ℝ RealLike.toOfScientific m s e = (OfScientific.ofScientific m s e : ℝ) := rfl
 
 /-- the bridge simp set -/
-macro "rl_simp" : tactic =>
+macro "rl_simp" loc:(Lean.Parser.Tactic.location)? : tactic =>
   `(tactic| simp only [rl_cos, rl_sin, rl_sqrt, rl_exp, rl_log, rl_floor, rl_atan2, rl_pi, rl_add, rl_sub,
-      rl_mul, rl_div, rl_neg, rl_lt, rl_le, rl_sci])
+      rl_mul, rl_div, rl_neg, rl_lt, rl_le, rl_sci] $[$loc]?)
 
 end
